@@ -1,18 +1,30 @@
 SPEC = dict(
     property='C18',
     level='other',
-    level_text='Bounded (labelled) on the real condense_to_mass_mods: for 23 annotation texts (every modification kind incl. negative net '
-               'shifts, static rules, labels, unknown-position, interval, charge / adducts) and random modified peptides x include_plus x '
-               'precision 3..8 the result has the same residues, only numeric modifications, shifts exactly where modifications were, a mass '
-               'within precision x number of shifts of the original, and an unmodified peptide is returned unchanged. Deductive support: '
-               'split()/slice() (C11 contract) says which annotations every one-residue piece inherits -- which is precisely what the six '
-               'recorded findings of this property are about; the condenser itself is not under contract in this revision.',
-    level_note='six recorded findings (one root cause: one-residue pieces inherit global, unknown-position, interval and charge annotations).',
+    level_text='Mixed. DEDUCTIVE (record model, any peptide length): condense_to_mass_mods is proved to return the serialization of a peptide '
+               'with the SAME residues that carries a numeric shift on residue i exactly when the one-residue piece i of the peptide '
+               '(without terminal and labile modifications) differs in mass from its stripped form by more than 1e-6 -- in either '
+               'direction -- with the value round(difference, precision); exactly one numeric N-terminal / C-terminal / labile shift when the '
+               'peptide has such modifications, with the value round(sum of their masses, precision); and no global rule, label, '
+               'unknown-position modification, interval, charge or adduct (loop invariant over the zipped pieces; the terminal and labile '
+               'modifications are removed BEFORE the peptide is cut). BOUNDED (labelled) on the real condenser against the real mass '
+               'calculator: for 23 annotation texts (every modification kind incl. negative net shifts, static rules, labels, '
+               'unknown-position, interval, charge / adducts) and random modified peptides x include_plus x precision 3..8: same residues, '
+               'only numeric modifications, shifts where modifications were, mass within precision x number of shifts (which needs the '
+               'additivity of mass() over the pieces -- not proved), unmodified peptide unchanged.',
+    level_note='mass(), mod_mass(), split(), strip(), serialize() and the four add_* stores are callees under assumed contracts (pure functions / '
+               'frame contracts); six recorded findings (one root cause: one-residue pieces inherit global, unknown-position, interval and '
+               'charge annotations) concern exactly the part the deductive tier leaves to mass() and split().',
     design_ref='DESIGN.md section 6, C18',
-    technique='bounded run-time contract check of the real condenser against the real mass calculator (labelled stand-in)',
+    technique='weakest-precondition VCs from the real AST of condense_to_mass_mods against a sidecar contract (loop invariant over '
+              'enumerate(zip(pieces, stripped pieces))), discharged by z3 / cvc5; bounded run-time contract check of the real condenser '
+              'against the real mass calculator as labelled stand-in for mass preservation',
+    contracts=['condense'],
     bounded=[dict(name='C18-bounded', script='bounded/C18.py')],
     replay_finder='bounded/C18.py',
-    explanation='bounded check only in this revision',
-    proved_clauses=[], bounded_clauses=['same residues; only numeric modifications; shifts on the modified residues / termini; mass within precision x k; unmodified unchanged'],
-    uncovered_clauses=[], assumptions=[], trusted_base=['bounded/C18.py'],
+    explanation='structure of the rewritten peptide proved; mass preservation bounded',
+    proved_clauses=['same residues; a numeric shift on residue i iff the piece differs from its stripped form by more than 1e-6, value = rounded difference',
+                    'terminal / labile shifts iff present, value = rounded sum; no other annotation survives (only numeric modifications)'],
+    bounded_clauses=['mass within precision x number of shifts of the original (needs additivity of mass() over pieces)', 'unmodified peptide returned unchanged', 'string input'],
+    uncovered_clauses=[], assumptions=['A-REAL', 'LC-ROUND', 'LC-SUMOVER', 'LC-DEEPCOPY'], trusted_base=['z3 5.1', 'cvc5 1.0.3', 'pyvc', 'bounded/C18.py'],
 )
